@@ -214,7 +214,7 @@ def gen_case(rng):
 async def run(ctx):
     rng = ctx.rng
     E.install()
-    for i in range(ctx.budget(500, 50_000)):
+    for i in range(ctx.budget(1500, 60_000)):
         case = gen_case(rng)
         await check_case(ctx, case)
         if i % 120 == 0:
